@@ -288,6 +288,11 @@ class SymExec:
             base = self.expr(a[0], st)
             idx = self.expr(a[1], st)
             return self._elt(base, idx)
+        if k == "MemberExpr":
+            ks = C.kids(n)
+            base = C.strip(ks[0]) if ks else None
+            bname = self._k(base["referencedDecl"].get("name")) if base is not None and base.get("kind") == "DeclRefExpr" else "this"
+            return "%s.%s" % (bname, n.get("name"))
         raise Unsupported("lvalue %s at line %s" % (k, C.line(n)))
 
     def _elt(self, base, idx):
@@ -337,6 +342,8 @@ class SymExec:
                     return st.env[key]
                 return Ptr((key[0],) + (key[1] if isinstance(key[1], tuple) else (key[1],)), 0)
             return st.get(key)
+        if k == "MemberExpr":
+            return st.get(self.lvalue(n, st))
         if k == "UnaryOperator":
             op = n.get("opcode")
             if op == "-":
